@@ -291,7 +291,13 @@ contract('parso.python.parser.Parser.convert_node',
          requires=['children is not None', 'len(children) >= 1',
                    'forall(lambda k: implies(0 <= k and k < len(children), children[k] is not None), trigger=lambda k: children[k])',
                    # grammar: a suite that is not a single simple_stmt is NEWLINE INDENT stmt+ DEDENT
-                   'implies(nonterminal == "suite", len(children) >= 4)'],
+                   'implies(nonterminal == "suite", len(children) >= 4)',
+                   # grammar: a funcdef has a `parameters` child, an interior node (T: tab:*:funcdef-shape); like the suite shape
+                   # this is a fact about the entry being popped that the dispatch site does not establish (I_stack not proved)
+                   'implies(nonterminal == "funcdef", exists(lambda j: 0 <= j and j < len(children) and children[j] is not None and '
+                   'children[j].type == "parameters" and not is_leaf(children[j])))',
+                   'forall(lambda k: implies(0 <= k and k < len(children) and children[k].type == "parameters", not is_leaf(children[k]) and '
+                   'children[k].children is not None), trigger=lambda k: children[k])'],
          ensures=['result is not None', 'isinstance(result, tree.BaseNode)',
                   'implies(nonterminal != "suite", result.children is children)',
                   'implies(nonterminal == "suite", len(result.children) == len(children) - 2 and result.children[0] is children[0] and '
